@@ -531,7 +531,18 @@ ssize_t __wrap_writev(int fd, const struct iovec *iov, int cnt)
 		if (s->budget_pos == s->n_budget) s->wmode = s->wmode_after;
 	}
 	if (m == W_EAGAIN) { out("W %s asked=%zu ret=EAGAIN", hname(fd), total); errno = EAGAIN; return -1; }
-	if (m == W_ERR) { out("W %s asked=%zu ret=ERR", hname(fd), total); errno = EPIPE; return -1; }
+	if (m == W_ERR) {
+		out("W %s asked=%zu ret=ERR", hname(fd), total);
+		/* as the kernel: a write to a connection whose peer is gone raises SIGPIPE unless the process ignores it */
+		struct sigaction sa;
+		if (sigaction(SIGPIPE, NULL, &sa) == 0 && sa.sa_handler != SIG_IGN) {
+			out("SIGPIPE raised by the write to %s (disposition is not SIG_IGN)", hname(fd));
+			fflush(stdout);
+			raise(SIGPIPE);
+		}
+		errno = EPIPE;
+		return -1;
+	}
 	uint8_t *flat = __real_malloc(total + 1);
 	size_t o = 0;
 	for (int i = 0; i < cnt; i++) { if (iov[i].iov_len) memcpy(flat + o, iov[i].iov_base, iov[i].iov_len); o += iov[i].iov_len; }
